@@ -5,10 +5,13 @@ go 1.26
 require (
 	github.com/anishathalye/porcupine v1.3.0
 	github.com/ethereum/go-ethereum v0.0.0
+	golang.org/x/crypto v0.48.0
 )
 
 require (
+	github.com/VictoriaMetrics/fastcache v1.13.0 // indirect
 	github.com/bits-and-blooms/bitset v1.20.0 // indirect
+	github.com/cespare/xxhash/v2 v2.3.0 // indirect
 	github.com/consensys/gnark-crypto v0.18.1 // indirect
 	github.com/crate-crypto/go-eth-kzg v1.5.0 // indirect
 	github.com/emicklei/dot v1.6.2 // indirect
